@@ -71,8 +71,15 @@ void SelectLoop::runLoop(Mode mode)
                 bool is_except   = FD_ISSET(fd, &except_set);
 
                 if (is_readable || is_writable || is_except) {
-                    auto *data = fd_data_map_.at(fd);
+                    //! 前面的回调可能已经销毁了该fd上的所有事件，此时共享数据已不存在，跳过即可（at() 会抛异常）
+                    auto it = fd_data_map_.find(fd);
+                    if (it == fd_data_map_.end())
+                        continue;
+
+                    auto *data = it->second;
+                    ++data->ref;    //! 回调期间保持共享数据有效
                     SelectFdEvent::OnEventCallback(is_readable, is_writable, is_except, data);
+                    unrefFdSharedData(fd);
                 }
             }
         } else if (select_ret == -1) {
